@@ -11,6 +11,7 @@ import (
 	"path/filepath"
 	"strings"
 	"sync"
+	"syscall"
 	"time"
 
 	"github.com/google/mtail/internal/logline"
@@ -26,18 +27,18 @@ import (
 // (test wakers; quiescence = every wakee is back in Wake()).
 
 type tailEnv struct {
-	dir, path     string
-	cancel        context.CancelFunc
-	npat          int
-	drained       chan struct{} // closed when the collector has seen the lines channel close
-	wg            sync.WaitGroup
-	lines         chan *logline.LogLine
-	mu            sync.Mutex
-	got           []string
-	sw, pw        *hWaker
-	alive         int
-	stalled       string
-	ta            *tailer.Tailer
+	dir, path string
+	cancel    context.CancelFunc
+	npat      int
+	drained   chan struct{} // closed when the collector has seen the lines channel close
+	wg        sync.WaitGroup
+	lines     chan *logline.LogLine
+	mu        sync.Mutex
+	got       []string
+	sw, pw    *hWaker
+	alive     int
+	stalled   string
+	ta        *tailer.Tailer
 }
 
 func withTimeout(d time.Duration, f func()) bool {
@@ -315,7 +316,10 @@ func c16Spec(ops []string) []string {
 			if exists {
 				flush()
 			}
-		case "del":
+		case "del", "rotx":
+			// rotx: the log is rotated away and what takes its place cannot be opened (a socket file
+			// here; a file the daemon may not read behaves the same): for the reader of the path the
+			// log has gone, until a readable one is created
 			if exists {
 				flush()
 				exists, tailing = false, false
@@ -384,8 +388,17 @@ func c16Run(r *runCtx, id string, f []string) {
 				_ = os.Remove(env.path)
 				exists = false
 			}
+		case "rotx":
+			if exists {
+				_ = os.Rename(env.path, fmt.Sprintf("%s.%d", env.path, time.Now().UnixNano()))
+				if err := syscall.Mknod(env.path, syscall.S_IFSOCK|0o644, 0); err != nil {
+					_ = os.Remove(env.path)
+				}
+				exists = false
+			}
 		case "cre":
 			if !exists {
+				_ = os.Remove(env.path) // whatever unopenable thing sits there
 				_ = os.WriteFile(env.path, nil, 0o644)
 				exists = true
 			}
@@ -433,7 +446,7 @@ func c16Run(r *runCtx, id string, f []string) {
 func init() {
 	props["C16"] = &propImpl{
 		gen: func(g *genCtx) {
-			alphabet := []string{"a:" + hx("x\n"), "a:" + hx("fr"), "a:" + hx("y\r\n"), "a:" + hx("ag\nz"), "t", "rot", "ct", "del", "cre", "p"}
+			alphabet := []string{"a:" + hx("x\n"), "a:" + hx("fr"), "a:" + hx("y\r\n"), "a:" + hx("ag\nz"), "t", "rot", "ct", "del", "cre", "p", "rotx"}
 			L := 3
 			if g.thorough() {
 				L = 4
@@ -506,7 +519,7 @@ func init() {
 					case 4:
 						ops[j] = "a:" + hx(fmt.Sprintf("frag%d", g.r.intn(100)))
 					default:
-						ops[j] = alphabet[4+g.r.intn(6)]
+						ops[j] = alphabet[4+g.r.intn(7)]
 					}
 				}
 				if g.r.chance(1, 3) {
